@@ -11,6 +11,7 @@ edist <a> <b>                                 → ~v
 sk <H mu> <H nu> <M>                          → ok L ~.. R ~.. C ~cost S ~colsum.. [P ~plan..] | panic
 var <H x> <H y>                               → ~v
 greedy <H src> <H tgt> <M>                    → ok C ~cost K <n> (<key> ~v)* | panic
+skn <r> <H mu> <H nu> <M>  /  greedyn <r> <H src> <H tgt> <M>   `minimize()` applied r ≥ 1 times to the same coupling
 emd <H x> <H y> <M>                           → ~v | panic          (Metric::emd dispatch)
 H = <n> <mass> (<code> <count>)*      M = <k> (<key> <f32 bits>)*
 ```
@@ -65,13 +66,21 @@ def fastDistance (t : Std.HashMap Nat F) (x y : Nat) : Option F :=
 
 def fmts (xs : List F) : String := joinSp (xs.map fmt32)
 
-def runSk (mu nu : Hist) (m : Metric F) : String :=
+/-- `minimize()` applied `reps` times: the loop restarts from the potentials it stopped at -/
+def skRepeat (d : Nat → Nat → F) (mu nu : Hist) : Nat → SK F → Option (SK F)
+  | 0, s => some s
+  | r + 1, s =>
+    match skLoop d Tf tolf mu nu RP.Gen.C12.iterations s with
+    | none => none
+    | some s' => skRepeat d mu nu r s'
+
+def runSk (mu nu : Hist) (m : Metric F) (reps : Nat := 1) : String :=
   let t := fastTable m
   let dO := fastDistance t
   let covers := mu.support.all fun x => nu.support.all fun y => (dO x y).isSome && (dO y x).isSome
   if mu.counts.isEmpty || nu.counts.isEmpty || !covers then "panic" else
   let d : Nat → Nat → F := fun x y => (dO x y).getD (Float32.ofNat 0)
-  match skLoop d Tf tolf mu nu RP.Gen.C12.iterations (skInit mu nu) with
+  match skRepeat d mu nu reps (skInit mu nu) with
   | none => "panic"
   | some s =>
     match cost d Tf s with
@@ -130,6 +139,30 @@ def handle (line : String) : String :=
   | ["edist", a, b] =>
     match nat? a, nat? b with
     | some a, some b => fmt32 (equityDistance a b : F)
+    | _, _ => "bad-op"
+  | "skn" :: r :: rest =>
+    match nat? r, parseHist rest with
+    | some r, some (mu, r1) =>
+      if r = 0 then "bad-op" else
+      match parseHist r1 with
+      | some (nu, r2) =>
+        match parseMetric r2 with
+        | some (m, []) => runSk mu nu m r
+        | _ => "bad-op"
+      | none => "bad-op"
+    | _, _ => "bad-op"
+  | "greedyn" :: r :: rest =>
+    -- `Heuristic::minimize` clears the plan and rebuilds pile and sink from the two histograms:
+    -- every application computes the same plan
+    match nat? r, parseHist rest with
+    | some r, some (src, r1) =>
+      if r = 0 then "bad-op" else
+      match parseHist r1 with
+      | some (tgt, r2) =>
+        match parseMetric r2 with
+        | some (m, []) => ((List.range r).map fun _ => runGreedy src tgt m).getLastD "bad-op"
+        | _ => "bad-op"
+      | none => "bad-op"
     | _, _ => "bad-op"
   | "sk" :: rest =>
     match parseHist rest with
